@@ -48,7 +48,8 @@ class C09(Prop):
     vacuity = {"quick": ["probe:step_inside_block", "probe:callback_inside_block", "probe:style_steps",
                          "probe:style_full", "probe:style_the", "probe:infer_head", "probe:add_rule",
                          "probe:class_predicate", "probe:function_predicate", "probe:ambient_rule",
-                         "probe:ambient_query", "probe:instances_built_inside_block"]}
+                         "probe:ambient_query", "probe:instances_built_inside_block",
+                         "probe:inner_evaluation_from_user_code"]}
 
     def gen(self, rng, tier, campaign):
         cfg = G.gen_config(rng, tier)
@@ -56,6 +57,7 @@ class C09(Prop):
         cfg["n_obj"] = min(cfg["n_obj"], 5)
         cfg["depth"] = min(cfg["depth"], 2)
         cfg["n_queries"] = 1
+        cfg["inner_eval"] = True
         flavour = rng.choice(["plain", "plain", "infer", "add"])
         if flavour == "plain":
             world, pool = G.gen_world_and_pool(rng, cfg)
@@ -163,6 +165,13 @@ class C09(Prop):
                 sim.violate("user-callback-in-symbolic-mode", {"callback": kind, "who": repr(who),
                                                                "ambient": repr(_symbolic_mode.get()),
                                                                "open_blocks": [f[0] for f in frames]})
+            if kind == "inner_eval":
+                sim.count("probe:inner_evaluation_from_user_code")
+                if what[0] != what[1]:
+                    # evaluate() called by user code inside its own block, while an outer evaluation is running
+                    sim.violate("nested-evaluate-inside-user-block-differs-from-plain-python", {
+                        "object": repr(who), "evaluate_said": what[0], "plain_python": what[1], "inner_rows": what[2],
+                        "ambient": repr(_symbolic_mode.get()), "open_blocks": [f[0] for f in frames]})
             if kind in ("pred", "cpred") and _is_symbolic_label(what):
                 sim.violate("user-callback-symbolic-argument", {"callback": kind, "who": repr(who), "arg": repr(what)})
         sim.cb_observers.append(observer)
